@@ -4,7 +4,7 @@ from common import run_go, run_model, compare_hist, shrink, status_of, log
 from wire import to_wire
 
 
-def chain_case(layers, parents=None, env=None, tail=("docs", "outdocs")):
+def chain_case(layers, parents=None, env=None, tail=("docs", "alias", "outdocs")):
     """layers: list of python trees; layer i is the child of layer i-1 (file-style chain)."""
     steps = []
     for i, l in enumerate(layers):
@@ -77,3 +77,126 @@ def step_summary(res):
     if not res or "res" not in res:
         return status_of(res)[0] + ":" + str(status_of(res)[1])
     return "|".join(("E:" + s["err"]) if "err" in s else ("ok" if ("ok" in s or "bytes" in s) else list(s)[0]) for s in res["res"])
+
+
+# ---------------------------------------------------------------- separation monitor follow-ups (DESIGN §5.2)
+#
+# The value-semantic model is a faithful abstraction of the Go heap only while no mutable
+# container is reachable twice from the parser's documents.  The `alias` step reports such
+# containers with both access paths.  Sharing by itself is not a property violation; it is the
+# correspondence precondition breaking.  The search below aims a further layer at one of the
+# two paths and lets the ordinary correspondence decide whether the other one moves with it.
+
+MARK = "zzalias"
+
+
+def _plain_scalar(v):
+    return (isinstance(v, (bool, int, float)) or (isinstance(v, str) and not v.startswith("$"))) and v is not None
+
+
+def _same(a, b):
+    return type(a) is type(b) and a == b
+
+
+def _distinguish(entries, idx):
+    """The most specific plain-scalar map pattern matching entries[idx] (it may match other entries
+    too: the model computes the expected result either way), or None when the entry is not a map."""
+    e = entries[idx]
+    if not isinstance(e, dict):
+        return None
+    return {k: v for k, v in e.items() if not k.startswith("$") and _plain_scalar(v)}
+
+
+def _patch_into(node, path):
+    """A layer fragment that adds MARK inside the container found at `path` below `node`."""
+    if not path:
+        if isinstance(node, dict):
+            return {MARK: [1]}     # applied twice through an alias this becomes [1, 1]
+        if isinstance(node, list):
+            return [MARK]
+        return None
+    el = path[0]
+    if "k" in el:
+        if not isinstance(node, dict) or el["k"] not in node or el["k"].startswith("$"):
+            return None
+        sub = _patch_into(node[el["k"]], path[1:])
+        return None if sub is None else {el["k"]: sub}
+    if not isinstance(node, list) or el["i"] >= len(node):
+        return None
+    pat = _distinguish(node, el["i"])
+    sub = _patch_into(node[el["i"]], path[1:])
+    if pat is None or not isinstance(sub, dict):
+        return None
+    return [dict(sub, **{"$match": pat})]
+
+
+def alias_followups(case, go):
+    """Follow-up cases for every shared container the monitor reported in `go` (result of `case`)."""
+    from wire import from_wire
+    out = []
+    if not go or "res" not in go:
+        return out
+    docs = None
+    for si, (step, res) in enumerate(zip(case["steps"], go["res"])):
+        if "docs" in step and "ok" in res:
+            try:
+                docs = [from_wire(d) for d in res["ok"]]
+            except Exception:
+                docs = None
+        if "alias" in step and res.get("shared") and docs is not None:
+            for pair in res.get("pairs") or []:
+                for tgt in (pair["a"], pair["b"]):
+                    di, path = tgt[0], tgt[1:]
+                    if di >= len(docs):
+                        continue
+                    body = _patch_into(docs[di], path)
+                    if not isinstance(body, dict):
+                        continue
+                    sel = {} if len(docs) == 1 else _distinguish(docs, di)
+                    if sel is None:
+                        continue
+                    layer = dict(body, **{"$match": sel})
+                    steps = [s for s in case["steps"][:si] if "merge" in s]
+                    steps += [{"merge": {"id": "ALIAS", "parents": [], "data": layer}}, {"docs": True}, {"outdocs": True}]
+                    out.append({"steps": steps, "env": case.get("env") or {}, "alias_followup": True})
+    return out
+
+
+def shared_total(go):
+    if not go or "res" not in go:
+        return 0
+    return sum(r.get("shared", 0) for r in go["res"] if isinstance(r, dict))
+
+
+def alias_search(rep, results, compare_class=False):
+    """Run the follow-ups for every result whose monitor reported sharing.
+    Returns extra failing tuples (case, go, model, description)."""
+    shared_cases = [(c, g) for c, g, _, _, _ in results if shared_total(g)]
+    if not shared_cases:
+        return []
+    rep.count("alias:cases_with_shared_containers", len(shared_cases))
+    fu = []
+    for c, g in shared_cases[:200]:
+        fu += alias_followups(c, g)
+    rep.count("alias:followup_cases", len(fu))
+    bad = []
+    if fu:
+        for c, g, m, d, _ in run_cases(fu, compare_class):
+            if d:
+                bad.append((c, g, m, "aliased container: a layer aimed at one place also changed another: " + d))
+    if not bad:
+        ex = rep.extra.setdefault("alias_unexplained", [])
+        if len(ex) < 3:
+            c, g = shared_cases[0]
+            ex.append({"case": c, "monitor": [r for r in g["res"] if isinstance(r, dict) and r.get("shared")]})
+    return bad
+
+
+def alias_verdict(rep):
+    """After all cases ran: sharing was observed but no follow-up made it observable."""
+    ex = rep.extra.get("alias_unexplained")
+    if ex and not rep.violations:
+        rep.violation("correspondence precondition broken: containers are shared inside the parser's documents "
+                      "(separation monitor), so the value-semantic model no longer describes the heap; "
+                      "no layer sequence exposing it was found",
+                      {"obligation": "separation monitor (histcheck.alias_search)", "examples": ex}, no_input=True)
